@@ -368,6 +368,54 @@ def compare(prep, res, m):
     return bad
 
 
+def hash_race(env, quick):
+    """Two threads of ONE process call f(a) and f(b) (a != b) through the same MemorizedFunc; a pre-emption is forced at every
+    line of joblib/hashing.py that thread 0 executes while computing its cache key (sys.monitoring LINE events).  Oracle:
+    every call returns the value of ITS argument, during the race, afterwards in the same process and in a fresh one, and
+    every entry on disk holds the value of its own key.  Returns (number of runs, [(what, replay)])."""
+    bases = {}
+    for tag, prelude in (("cold", [S(1, [C(3)])]), ("warm", [S(1, [C(1), C(2)])])):
+        d = env.fresh("hr_" + tag)
+        for ps in prelude:
+            base.run_child(base.child_spec(env.mods, d, ps))
+        bases[tag] = d
+    probe = base.run_child(base.child_spec(env.mods, env.fresh("hr_probe"), S(1, []), mode="off",
+                                           hashrace={"keys": [1, 2], "switch": 10 ** 6}))
+    n_lines = max(probe.get("events", [30, 0])[0], 8)
+    jobs = [(tag, keys, a) for tag in bases for keys in ([1, 2], [2, 1]) for a in range(0, n_lines + 1)]
+    if quick:
+        jobs = [j for j in jobs if j[1] == [1, 2] or j[2] % 3 == 0]
+
+    def one(job):
+        tag, keys, a = job
+        d = env.fresh("hr")
+        base.copy_dir(bases[tag], d)
+        r = base.run_child(base.child_spec(env.mods, d, S(1, []), mode="off", hashrace={"keys": keys, "switch": a}))
+        r2 = base.run_child(base.child_spec(env.mods, d, S(1, [C(k) for k in keys]), mode="off")) if "race" in r else {}
+        shutil.rmtree(d, ignore_errors=True)
+        return job, r, r2
+    with cf.ThreadPoolExecutor(max(2, common.NCPU // 2)) as ex:
+        res = list(ex.map(one, jobs))
+    bad = []
+    for (tag, keys, a), r, r2 in res:
+        rep = {"kind": "hashrace", "dir": tag, "keys": keys, "switch": a}
+        if "race" not in r:
+            bad.append(("harness: hash-race run failed: %s" % r, rep))
+            continue
+        for phase, outs in (("during the race", r["race"]), ("afterwards in the same process", r["again"]),
+                            ("afterwards in a fresh process", r2.get("results", [{}, {}]))):
+            for k, o in zip(keys, outs):
+                if o is None or "raise" in o or o.get("ok") != [1, k]:
+                    bad.append(("two threads call f(%d) and f(%d) [%s cache, pre-emption after line %d of joblib.hashing]: f(%d) %s gave %s"
+                                % (keys[0], keys[1], tag, a, k, phase, o), rep))
+        for p, c in r.get("state", []):
+            if p.endswith("/output.pkl"):
+                kk = base.pcode(p, {})[1]
+                if c[0] != "val" or c[1] != [1, kk]:
+                    bad.append(("after two threads called f(%d) and f(%d) [pre-emption after line %d]: %s holds %s" % (keys[0], keys[1], a, p, c), rep))
+    return len(jobs), bad
+
+
 def run(ctx):
     quick = ctx.tier == "quick"
     env = base.Env(ctx)
@@ -443,6 +491,9 @@ def run(ctx):
                 known.append((what, rep))
             else:
                 oracle_fail.append((what, rep))
+    n_hr, hr_bad = hash_race(env, quick)
+    for what, rep in hr_bad[:3]:
+        oracle_fail.append((what, rep))
     if inconclusive:
         ctx.note("%d interleaved runs timed out twice and are reported as inconclusive" % inconclusive)
     if known:
@@ -475,6 +526,7 @@ def run(ctx):
         "samples": [{"scenario": owners[0][0]["name"], "schedule": owners[0][1]["actual"][:60],
                      "outcomes": [o.get("results") for o in owners[0][1]["outs"]]}] if owners else [],
         "traces_validated_against_impl": len(vals),
+        "hash_race_runs": n_hr,
         "runs_per_scenario": dist, "schedules_hitting_F14": len(known), "inconclusive_timeouts": inconclusive,
         "disagreements": len(disagreements),
         "source_order_tie": gen_tie,
@@ -493,6 +545,16 @@ def run(ctx):
 def replay(ctx, path):
     obj = json.load(open(path))
     rep = obj.get("replay", obj)
+    if rep.get("kind") == "hashrace":
+        env = base.Env(ctx)
+        d = env.fresh("hr_replay")
+        for ps in ([S(1, [C(3)])] if rep["dir"] == "cold" else [S(1, [C(1), C(2)])]):
+            base.run_child(base.child_spec(env.mods, d, ps))
+        r = base.run_child(base.child_spec(env.mods, d, S(1, []), mode="off", hashrace={"keys": rep["keys"], "switch": rep["switch"]}))
+        outs = (r.get("race") or []) + (r.get("again") or [])
+        bad = [o for k, o in zip(rep["keys"] * 2, outs) if o is None or "raise" in o or o.get("ok") != [1, k]]
+        print("replay hash race:", r.get("race"), r.get("again"), "=>", bad or "property holds")
+        return 1 if bad or "race" not in r else 0
     if rep.get("kind") != "interleave":
         print("replay file names a broken proof/correspondence, nothing to execute:", rep.get("kind"))
         return 1
